@@ -271,7 +271,9 @@ OnWalletTx(e) ==
             /\ bad' = bad
                  \cup {Bad(e, "C19", "wallet-built-invalid-transaction:" \o x) : x \in v}
                  \cup (IF conflict THEN {Bad(e, "C19", "wallet-spent-an-output-committed-to-a-pooled-transaction")} ELSE {})
-                 \cup (IF ~pooled /\ ~IsPanic(e.res) /\ v = {} /\ ~conflict
+                 \* ("Duplicate": the payment has the signature of one already pooled - signatures do not cover
+                 \* which output is spent, only owner, amount and type - and the pool keeps the first)
+                 \cup (IF ~pooled /\ e.res # "Duplicate" /\ ~IsPanic(e.res) /\ v = {} /\ ~conflict
                        THEN {Bad(e, "C19", "own-valid-transaction-refused-by-pool")} ELSE {})
                  \cup (IF IsPanic(e.res) THEN {Bad(e, "C11", "panic")} ELSE WalletChecks(e, e.st, obs.utxo, obs.tiph, wc2))
             /\ UNCHANGED <<B, U, obs>>
@@ -355,7 +357,12 @@ OnRestart(e) ==
                      THEN {Bad(e, "C12", IF e.competing > 0 /\ a.tiph < e.disk_top
                                          THEN "restart-changed-spendable-outputs-on-a-tip-below-the-blocks-on-disk"
                                          ELSE "restart-changed-spendable-outputs")} ELSE {})
-               \cup (IF ~env.detached /\ ~SupplyOk(e, e.st) THEN {Bad(e, "C12", "restart-changed-supply")} ELSE {}))
+               \* (a restart that comes up on a competing branch - known finding - loads its blocks without the ledger
+               \* checks: a branch holding a double spend becomes the chain, now or at an earlier restart)
+               \cup (IF ~env.detached /\ ~SupplyOk(e, e.st)
+                     THEN {Bad(e, "C12", IF env.tainted \/ env.rtaint \/ (b.tip # a.tip /\ e.competing > 0)
+                                         THEN "restart-changed-supply-with-competing-branch-on-disk"
+                                         ELSE "restart-changed-supply")} ELSE {}))
     /\ obs' = IF IsPanic(e.res) THEN obs ELSE b
     /\ pool' = [id \in (DOMAIN pool \cap Rng(e.st.pool)) |-> pool[id]]     \* the pool is not persisted
     /\ env' = [env EXCEPT !.wc = {},                                     \* nor are the wallet's commitments
@@ -373,7 +380,9 @@ OnCrash(e) ==
                (IF b.tip = "" /\ e.intact > 0 THEN {Bad(e, "C12", "came-up-without-chain-despite-intact-blocks")} ELSE {})
                \cup (IF b.tip # "" /\ b.tip \notin DOMAIN B THEN {Bad(e, "C12", "came-up-on-unknown-block")} ELSE {})
                \cup (IF b.tip # "" /\ ~env.detached /\ Rooted(e.st) /\ ~SupplyOk(e, e.st)
-                     THEN {Bad(e, "C12", "supply-not-conserved-after-crash")} ELSE {})
+                     THEN {Bad(e, "C12", IF e.competing > 0 /\ (env.tainted \/ env.rtaint \/ b.tip # e.pretip)
+                                         THEN "supply-not-conserved-after-crash-with-competing-branch-on-disk"
+                                         ELSE "supply-not-conserved-after-crash")} ELSE {})
                \cup (IF b.tip \in DOMAIN B /\ ~env.detached /\ Rooted(e.st) /\ e.extend # "AddedLc"
                      THEN {Bad(e, "C12", "cannot-extend-chain-after-crash:" \o e.extend)} ELSE {}))
     /\ UNCHANGED <<B, U, obs, pool, env>>
